@@ -246,9 +246,8 @@ func (pi *partIter) findBlock() bool {
 				return false
 			}
 			if shouldSkip {
-				if !pi.nextSeriesID() {
-					return false
-				}
+				// Only this block is pruned; later blocks of the same series may match.
+				bhs = bhs[1:]
 				continue
 			}
 		}
